@@ -213,13 +213,17 @@ func (this *badgerWAL) Save(hardState raftpb.HardState, entries []raftpb.Entry, 
 		return err
 	}
 	if !etcdRaft.IsEmptySnap(snapshot) {
-		if err := this.writeSnapshot(batch, snapshot); err != nil {
-			return err
-		}
-		// Delete the log
+		// Delete the log first: the batch is applied in order, so deleting after
+		// writing the snapshot would also drop the entry written at the snapshot
+		// index when an entry with that index already existed.
 		if err := this.deleteEntriesFromIndex(batch, 0); err != nil {
 			return err
 		}
+		if err := this.writeSnapshot(batch, snapshot); err != nil {
+			return err
+		}
+		// The log now ends at the snapshot index, even if it was longer before.
+		this.cache.Store(cacheLastIndexKey, snapshot.Metadata.Index)
 	}
 
 	return batch.Flush()
@@ -267,7 +271,19 @@ func (this *badgerWAL) CreateSnapshot(idx uint64, confState *raftpb.ConfState, d
 }
 
 func (this *badgerWAL) DeleteGroup() error {
-	return this.reset(nil)
+	if err := this.reset(nil); err != nil {
+		return err
+	}
+	// Hard state and snapshot live under their own keys
+	batch := this.db.NewWriteBatch()
+	defer batch.Cancel()
+	if err := batch.Delete(this.hardStateKey()); err != nil {
+		return err
+	}
+	if err := batch.Delete(this.snapshotKey()); err != nil {
+		return err
+	}
+	return batch.Flush()
 }
 
 func (this *badgerWAL) entryPrefix() []byte {
